@@ -1,5 +1,5 @@
 """C19 — error formatters lose nothing: every issue appears once at its own path."""
-import re
+import os, re
 from . import common as C
 
 MANIFEST = dict(
@@ -8,7 +8,8 @@ MANIFEST = dict(
    note="Trusted: Lean kernel; axioms propext/Classical.choice/Quot.sound only; the Go harness, hex line protocol and comparer. The model is a hand transcription validated on generated cases. Issue.msg stands for mapper(issue) (formatter output for empty messages is not modelled). Paths are string keys and non-negative ints; other element types and negative ints are outside the model. FormatError's reserved key \"_errors\" is an open known finding.",
    design="DESIGN.md §5 C19; notes/C19.md")
 
-MODULES = ["Gozod.Proofs.C19", "Gozod.Proofs.C19Dot"]
+MODULES = ["Gozod.Proofs.C19", "Gozod.Proofs.C19Dot", "Gozod.Proofs.C19Exports"]
+GEN = os.path.join(C.LEAN, "Gozod", "Gen", "C19Exports.lean")
 THEOREMS = ["Gozod.C19." + t for t in [
     "c19_flatten_count", "c19_flatten_form", "c19_flatten_field", "c19_flatten_place",
     "c19_tree_count", "c19_tree_place",
@@ -18,6 +19,8 @@ THEOREMS = ["Gozod.C19." + t for t in [
     "c19_nonempty", "c19_nonempty_format_full_false",
     "esc_split", "segDotEsc_split", "c19_dotpath_esc_injective", "c19_dotpath_esc_nonempty",
     "dotPath_eq_esc", "c19_dotpath_injective_escfree", "plainPath_escFree", "dotpath_backslash_outside",
+    "c19_exports_are_internal", "c19_exports_cover", "c19_wrappers_as_expected", "c19_errors_go_accounted",
+    "c19_transcribed_present", "c19_error_method_as_expected", "c19_error_eq_prettify",
     "legacy_format_drops_union", "legacy_format_drops_element", "legacy_format_drops_unknown_code",
     "legacy_format_misfiles_nested", "legacy_dotpath_conflates", "legacy_nonempty_false",
 ]]
@@ -109,14 +112,50 @@ def describe(op):
         return "gozod." + how[6:] + " → err; gozod.FlattenError/TreeifyError/FormatError/PrettifyError(err)"
     return "%s: &gozod.ZodError{Issues: <the issue tree of the op line>} (synth-on-real-error: a copy of the error of String().Parse(1) with Issues replaced); then the four formatters" % how
 
+# which reports a modelled Go function feeds (to aim the run when its fingerprint changes)
+REACH = {"FlattenErrorWithMapper": "flat", "FlattenError": "flat", "FlattenErrorWithFormatter": "flat",
+         "TreeifyErrorWithMapper": "tree", "TreeifyError": "tree", "processIssueInTree": "tree",
+         "FormatErrorWithMapper": "fmt", "FormatError": "fmt",
+         "PrettifyErrorWithFormatter": "pretty", "PrettifyError": "pretty", "ToDotPath": "pretty", "ZodError.Error": "pretty",
+         "needsBracketNotation": "pretty", "isIdentChar": "pretty", "defaultIssueMapper": "flat,tree,fmt,pretty"}
+# the entry-point variant of the harness that reaches a function no other variant reaches
+NEEDS_ENTRY = {"FlattenErrorWithFormatter": "custom-formatter", "ZodError.Error": "error-method"}
+
 def run(res):
+    # --- translator: regenerate Gen/C19Exports.lean (re-exports of gozod.go, thin entry points of errors.go) from the working tree
+    ok, out = C.build_harness("C19")
+    if not ok:
+        C.tie_broken(res, "harness C19 does not build against the library", out[-3000:]); return res.finish()
+    env = C.goenv(); env["VERIF_REPO"] = C.REPO
+    tmp = os.path.join(C.BUILD, "run", "C19-gen-%d" % os.getpid()); os.makedirs(tmp, exist_ok=True)
+    with C.Lock("c19gen"):
+        rc, out = C.run([C.harness_bin("C19"), "-out", tmp, "-gen", GEN], env=env, timeout=600)
+    if rc != 0:
+        C.tie_broken(res, "translator C19 (gozod.go, internal/issues/errors.go -> Gen/C19Exports.lean)", out[-3000:])
     ok, detail = C.prove(res, MODULES, THEOREMS)
     if not ok:
-        C.tie_broken(res, "proof Gozod.Proofs.C19", detail)
-    data, err = C.correspond(res, "C19")
+        C.tie_broken(res, "proof Gozod.Proofs.C19 / C19Dot / C19Exports (the latter is over the table regenerated from gozod.go and errors.go)", detail)
+    # --- structure fingerprints of the transcribed Go functions: an edited function aims the run (4x the synthesised cases)
+    changed = C.fingerprint(res, "C19")
+    aimed = set()
+    for k, lean_def, kind, detail in changed:
+        fn = k.split(":", 1)[1]
+        if kind == "missing":
+            C.tie_broken(res, "fingerprint " + k, "the Go function %s transcribes is gone or renamed" % lean_def)
+        aimed |= set(REACH.get(fn, "flat,tree,fmt,pretty").split(","))
+    if changed:
+        res.notes.append("modelled Go functions edited since the expectation was recorded: " +
+                         "; ".join("%s (%s: %s) transcribed by %s" % (c[0], c[2], c[3], c[1]) for c in changed) +
+                         "; run aimed at " + ",".join(sorted(aimed)))
+    data, err = C.correspond(res, "C19", extra_args=(["-aim", ",".join(sorted(aimed))] if aimed else []))
     if data is None:
         C.tie_broken(res, "correspondence C19/formatters", err)
         return res.finish()
+    # every entry point must be reached by the run (a changed function no case reaches is a broken tie)
+    dist = data[3].get("histogram", {})
+    for fn, entry in NEEDS_ENTRY.items():
+        if not dist.get("entry:" + entry):
+            C.tie_broken(res, "coverage C19/" + fn, "no generated case went through the entry-point variant '%s' that reaches %s" % (entry, fn))
     C.decide(res, "C19", data, key, "C19/flatten+treeify+formatError+prettify", describe=describe)
     res.coverage["rule"] = ("corpus of the sighted shapes; synthesised issue lists (0-20 issues, all 17 codes + unknown codes, paths of 0-4 segments "
         "mixing identifier keys, numeric-looking keys, keys with dots/spaces/quotes/non-ASCII, \"_errors\", \"\" and sparse int indices; union issues with 0-3 branches of 0-3 "
